@@ -13,7 +13,7 @@ RULE = 'as C01 plus all tight x clip modes of SetStrictRanges, degenerate / movi
 TRUSTED = SC.TRUSTED
 ASSUMPTIONS = SC.ASSUMPTIONS
 META = dict(technique='Coq proof (call-log invariant for every algorithm program and op sequence) + trace correspondence by vm_compute',
-            level_text='Theorem: for EVERY algorithm program over the machine, every user function and every sequence of API operations (SetStrictRanges interleaved with Step), every real call lies inside the box in force when it was made. Tied to /repo by replaying generated scripts through the real solvers and the machine; the oracle checks every recorded cost argument, the best solution and generated initial points, also in the tight/clip modes that the machine does not model.',
+            level_text='Theorem: for EVERY algorithm program over the machine, every user function and every sequence of API operations (SetStrictRanges interleaved with Step), every real call lies inside the box in force when it was made. When the ranges are not changed during a clean run, every logged call was made under that box (C02_box_constant, every algorithm) and the reported best of DE, Nelder-Mead and Powell is an evaluated point inside it or has a top (infinite) energy (C02_de/nm/powell_best_inside). Tied to /repo by replaying generated scripts through the real solvers and the machine (tight / clip=True modes included: the composite constraints.and_ is a recorded table); the oracle checks every recorded cost argument, the best solution and generated initial points, also in the clip=False mode and under constraints that push points out of the box.',
             level_note='Trusted: Coq kernel+VM; harness (generators, instrumentation of /repo from outside, printers, oracles). User cost/constraints/penalty, DE trial vectors, Nelder-Mead candidate points, argsort permutation and post-decoration populations are oracle inputs (recorded in the correspondence, universally quantified in theorems). Powell: line-search probes and the returned index are oracle inputs. Tight / clip=True range modes: the composite constraints.and_(constraints, bounds) is a recorded table. Not in the machine model (oracle only): ensembles, clip=False ranges. No NaN energies.',
             design_ref="5/C02")
 
